@@ -109,6 +109,22 @@ func c06Gen(t *rapid.T) mkCase {
 	if rapid.IntRange(0, 2).Draw(t, "bystander") == 0 {
 		c.Bystander = rapid.SampledFrom([]int{50, 200, 600}).Draw(t, "nbystander")
 	}
+	if rapid.IntRange(0, 3).Draw(t, "movedslots") == 0 {
+		// one or two of the request's slots have moved: the fragment is sent again to the node the old owner names
+		frs := refSplit(r.lname(), r.Args)
+		for k := rapid.IntRange(1, 2).Draw(t, "nmoved"); k > 0 && len(frs) > 0; k-- {
+			slot := frs[rapid.IntRange(0, len(frs)-1).Draw(t, "movedfrag")].Slot
+			dup := false
+			for _, m := range c.Spec.Moved {
+				if m.Slot == slot {
+					dup = true
+				}
+			}
+			if !dup {
+				c.Spec.Moved = append(c.Spec.Moved, SlotNode{Slot: slot, Node: (c13NodeOf(slot) + 1 + rapid.IntRange(0, 1).Draw(t, "movedto")) % 3})
+			}
+		}
+	}
 	return c
 }
 
@@ -179,12 +195,28 @@ func c06Run(f *Fixture, c *mkCase) []Discrepancy {
 	want := refSplit(name, r.Args)
 	log := f.Cluster.Log()
 	var got [][]byte
+	moved := map[int]int{}
+	for _, m := range c.Spec.Moved {
+		moved[m.Slot] = m.Node
+	}
 	for _, lr := range log {
 		if k := lr.Key(1); len(k) > 8 && (bytes.Contains([]byte(k), []byte("}witness-")) || bytes.HasSuffix([]byte(k), []byte("}ready"))) {
 			continue
 		}
 		if k := lr.Key(1); c.Bystander > 0 && lr.Name == "get" && bytes.Contains([]byte(k), []byte("}bystander-")) {
 			continue
+		}
+		if ks := keysOf(lr.Name, lr.Args); len(ks) > 0 {
+			if target, ok := moved[refmodel.KeySlot(ks[0])]; ok {
+				if lr.Node != target {
+					continue // the first hop, answered -MOVED
+				}
+				got = append(got, lr.Raw)
+				if lr.Name != name {
+					ds = append(ds, disc("C06/wrong-command", "a fragment of %s arrived as %q", name, lr.Name))
+				}
+				continue
+			}
 		}
 		got = append(got, lr.Raw)
 		if lr.Name != name {
@@ -249,6 +281,9 @@ func TestC06(t *testing.T) {
 		if c.Bystander > 0 {
 			cls = append(cls, "next-to-another-clients-traffic")
 		}
+		if len(c.Spec.Moved) > 0 {
+			cls = append(cls, "fragment-sent-again-after-moved")
+		}
 		rec.Case(&c, (slots >= 2 && (dup || multi)) || (c.Bystander > 0 && multi), cls...)
 		report(t, "C06", &c, c06Exec(&c))
 	})
@@ -258,10 +293,13 @@ func TestC06(t *testing.T) {
 
 func c07Gen(t *rapid.T) mkCase {
 	var c mkCase
-	c.Cfg = rapid.SampledFrom(shardPick([]sut.Config{{}, {DisableSlave: true}, {ServerConns: 3}}, 2)).Draw(t, "cfg")
+	c.Cfg = rapid.SampledFrom(shardPick([]sut.Config{{}, {DisableSlave: true}, {ServerConns: 3}, {MaxLen: 900}}, 2)).Draw(t, "cfg")
 	maxKeys := 200
 	if rapid.IntRange(0, 20).Draw(t, "manykeys") == 0 {
 		maxKeys = 2000
+	}
+	if c.Cfg.MaxLen > 0 {
+		maxKeys = 8 // request and replies have to stay near the small limit
 	}
 	r := genMultiKeyReq(t, maxKeys, []string{"mget", "mget", "del", "mset"})
 	name := r.lname()
@@ -321,8 +359,62 @@ func c07Gen(t *rapid.T) mkCase {
 	if rapid.Bool().Draw(t, "after") {
 		cs.Reqs = append(cs.Reqs, Req{Name: Bin("get"), Args: []Bin{Bin("{nb}after")}})
 	}
+	if rapid.IntRange(0, 2).Draw(t, "second") == 0 {
+		// a second split request is decoded (and answered) while the first one is still waiting for its fragments
+		n2 := Req{Name: Bin(rapid.SampledFrom([]string{"mget", "del"}).Draw(t, "secondname"))}
+		for i, nk := 0, rapid.IntRange(2, 5).Draw(t, "secondkeys"); i < nk; i++ {
+			n2.Args = append(n2.Args, Bin(fmt.Sprintf("second-%d-%d", i, rapid.IntRange(0, 99).Draw(t, "secondsfx"))))
+		}
+		cs.Reqs = append(cs.Reqs, n2)
+	}
 	c.Spec.Clients = []ClientSpec{cs}
+	if c.Cfg.MaxLen > 0 && name == "mget" {
+		c07NearLimit(t, &c, &r)
+	}
 	return c
+}
+
+// c07NearLimit stretches one stored value so that the merged reply of the MGET ends up 0-9 bytes below the
+// configured limit (or just above it): the sum of the fragment replies is then larger than the limit.
+func c07NearLimit(t *rapid.T, c *mkCase, r *Req) {
+	rc := &refCtx{MaxLen: 6 << 20}
+	target := c.Cfg.MaxLen - rapid.IntRange(-1, 9).Draw(t, "belowlimit")
+	k := r.Args[rapid.IntRange(0, len(r.Args)-1).Draw(t, "stretchkey")]
+	vi := -1
+	for i := range c.Spec.Values {
+		if string(c.Spec.Values[i].Key) == string(k) {
+			vi = i
+		}
+	}
+	if vi < 0 {
+		c.Spec.Values = append(c.Spec.Values, Value{Key: k, Val: Bin("v")})
+		vi = len(c.Spec.Values) - 1
+	}
+	c.Spec.Values[vi].Null = false
+	dups := 0
+	for _, a := range r.Args {
+		if string(a) == string(k) {
+			dups++
+		}
+	}
+	for try := 0; try < 6; try++ {
+		e := expectFor(r, indexPlans(&c.Spec), rc)
+		if e.Exact == nil {
+			return
+		}
+		diff := target - len(e.Exact)
+		if diff == 0 {
+			return
+		}
+		n := len(c.Spec.Values[vi].Val) + diff/dups
+		if diff/dups == 0 {
+			n = len(c.Spec.Values[vi].Val) + diff
+		}
+		if n < 0 {
+			return
+		}
+		c.Spec.Values[vi].Val = Bin(bytes.Repeat([]byte("s"), n))
+	}
 }
 
 func c07Exec(c *mkCase) []Discrepancy {
@@ -380,6 +472,18 @@ func TestC07(t *testing.T) {
 		}
 		if len(c.Spec.Moved) > 0 {
 			cls = append(cls, "one-fragment-redirected")
+		}
+		nmk := 0
+		for i := range c.Spec.Clients[0].Reqs {
+			if refmodel.MultiKey(c.Spec.Clients[0].Reqs[i].lname()) {
+				nmk++
+			}
+		}
+		if nmk > 1 {
+			cls = append(cls, "second-split-request-decoded-meanwhile")
+		}
+		if c.Cfg.MaxLen > 0 && r.lname() == "mget" {
+			cls = append(cls, "merged-reply-near-the-size-limit")
 		}
 		for _, p := range c.Spec.Plans {
 			if bytes.Equal(p.Reply, []byte("+QUEUED\r\n")) {
